@@ -52,6 +52,7 @@ namespace hs
         return *h;
     }
 
+    void install_error_handlers(int set);
     void install_handlers()
     {
         fm::set_leak_handler(
@@ -77,10 +78,53 @@ namespace hs
                     h.overflow[h.overflow_calls] = {mem, size, ptr};
                 ++h.overflow_calls;
             });
-        fm::out_of_memory::set_handler([](const fm::allocator_info&, std::size_t)
-                                       { ++handlers().oom_calls; });
-        fm::bad_allocation_size::set_handler([](const fm::allocator_info&, std::size_t, std::size_t)
-                                             { ++handlers().badsize_calls; });
+        install_error_handlers(0);
+    }
+
+    // two interchangeable sets of error handlers; each run installs the set its seed picks, so a handler that the
+    // library remembered from an earlier failure (instead of the installed one) shows as a stale call
+    int g_error_handler_set = 0;
+    void install_error_handlers(int set)
+    {
+        g_error_handler_set = set & 1;
+        if (g_error_handler_set == 0)
+        {
+            fm::out_of_memory::set_handler(
+                [](const fm::allocator_info&, std::size_t)
+                {
+                    if (g_error_handler_set == 0)
+                        ++handlers().oom_calls;
+                    else
+                        ++handlers().stale_calls;
+                });
+            fm::bad_allocation_size::set_handler(
+                [](const fm::allocator_info&, std::size_t, std::size_t)
+                {
+                    if (g_error_handler_set == 0)
+                        ++handlers().badsize_calls;
+                    else
+                        ++handlers().stale_calls;
+                });
+        }
+        else
+        {
+            fm::out_of_memory::set_handler(
+                [](const fm::allocator_info&, std::size_t)
+                {
+                    if (g_error_handler_set == 1)
+                        ++handlers().oom_calls;
+                    else
+                        ++handlers().stale_calls;
+                });
+            fm::bad_allocation_size::set_handler(
+                [](const fm::allocator_info&, std::size_t, std::size_t)
+                {
+                    if (g_error_handler_set == 1)
+                        ++handlers().badsize_calls;
+                    else
+                        ++handlers().stale_calls;
+                });
+        }
     }
 
     // every run starts by taking the harness's handlers off and putting them on again: set_X_handler(nullptr) must
@@ -198,6 +242,7 @@ namespace hs
                    (std::uint64_t)p.num("hseed", 1));
         try
         {
+            install_error_handlers(int(p.num("seed", 0) & 1));
             check_handler_registration();
             op_make(0);
             for (std::size_t i = 0; i < p.ops.size(); ++i)
@@ -792,6 +837,10 @@ namespace hs
                         "allocation threw %s: a bad_alloc that is neither the upstream's own exception nor "
                         "of the library's out_of_memory / bad_allocation_size families",
                         f.type.c_str());
+            if (h.stale_calls)
+                violate("C03", "handler_stale", "a failure called an error handler that had been replaced by "
+                                                "set_handler() before (%s)",
+                        f.type.c_str());
             if (f.is_oom && h.oom_calls == oom0)
                 violate("C03", "handler_not_called", "out_of_memory thrown without calling its handler");
             if (f.is_bad_size && h.badsize_calls == bad0)
@@ -987,6 +1036,13 @@ namespace hs
                             "pool had %zu bytes on its free list but grew by a block for a single node "
                             "(capacity_left %zu -> %zu)",
                             cap0, cap0, cap1);
+                // the very first request on a fresh pool: its free list is the first block in one piece, an array that
+                // fits into it must not make the pool grow
+                if (!plain && grown && r.array && S.successes == 1 && taken <= cap0)
+                    violate("C04,C18", "grew_with_free_node",
+                            "a fresh pool with %zu free bytes in one piece grew by a block for an array that takes "
+                            "%zu bytes",
+                            cap0, taken);
                 if (!plain && !(grown && (r.array || cap0 < ns)))
                     violate("C18,C04", "counter_delta",
                             "pool capacity_left %zu -> %zu for %zu byte(s) taken (node size %zu, next_capacity "
@@ -1071,6 +1127,11 @@ namespace hs
         if (!array && op.arg(4) == 1)
         {
             auto kind = S->o->caps.kind;
+            if (kind == K_LOWLEVEL && S->o->name != "ll.virtual")
+            {
+                r.size = 0; // malloc(0) and friends: a node of no bytes (it still has its fences)
+                stats().hit("reach.zero_sized_node");
+            }
             if (kind == K_COLL)
             {
                 r.size = S->o->max_node();
